@@ -33,6 +33,7 @@ for p in "$V"/selftest/mutants/*.patch "$V"/seeded/*/patch.diff; do
       echo "SELFTEST $name: violation reported but not the expected obligation ($exp)"; echo "$out" | grep "failed obligation" | head -5; fail=1
     else
       echo "SELFTEST $name: caught ($(echo "$out" | grep -c '^VIOLATION') violation lines)"
+      [ -n "${SHOW:-}" ] && echo "$out" | grep "failed obligation" | head -${SHOW}
     fi
   else
     echo "SELFTEST $name: NOT caught (exit $rc)"; echo "$out" | tail -5; fail=1
